@@ -95,7 +95,7 @@ func VerifH_C08_TraceBlockFilterNeverHidesAMatchingElement_StringTag() { c08Skip
 
 //verif:harness prop=C08 tier=quick,thorough reach=judged paths=60000 redirect=BloomFilter.Add:c08StubBloomAdd,BloomFilter.MightContain:c08StubBloomMightContain,BloomFilter.ContainsAll:c08StubBloomContainsAll
 // Block pruning in the trace engine is only an optimisation (see the int harness), string array tag.
-// bound: tag of type string array; block of 1..2 elements, arrays of 1..2 items of 1 arbitrary byte (thorough: 1..2 bytes in single-element blocks); condition HAVING | NOT HAVING with 1..2 literals drawn from {"a","7","bc"}; the bloom filter is its contract
+// bound: tag of type string array; block of 1..2 elements, arrays of 1..2 items of 1 arbitrary byte (1..2 bytes in single-element blocks); condition HAVING | NOT HAVING with 1..2 literals drawn from {"a","7","bc"}; the bloom filter is its contract
 // outside: AND/OR trees of conditions, null tag values
 func VerifH_C08_TraceBlockFilterNeverHidesAMatchingElement_StringArrayTag() { c08SkippingCase(2) }
 
@@ -199,7 +199,7 @@ func c08SkippingCase(kind int) { // 0 int, 1 string, 2 string array, 3 int array
 				enc = convert.Int64ToBytes(v)
 			} else {
 				ln := 1
-				if kind == 1 || (zzverif.Thorough() && rows == 1) {
+				if kind == 1 || rows == 1 {
 					ln = 1 + c08Pick("len", 2)
 				}
 				enc = zzverif.Bytes("value", ln)
